@@ -27,6 +27,9 @@ GROUPS = {
     "codec": dict(pkg="slice-codec", target=["--lib"], flags=[]),
     "slib": dict(pkg="slicec", target=["--lib"], flags=["--no-memory-safety-checks", "--no-undefined-function-checks"]),
     "sbin": dict(pkg="slicec", target=["--bin", "slicec"], flags=[]),
+    # slicec lib again, for the harnesses that need the injected Diagnostics::verif_with_capacity (inject_diag_capacity.rs):
+    # a change of Diagnostics' representation then breaks only this group's build, not every slicec-lib check
+    "slibx": dict(pkg="slicec", target=["--lib"], flags=["--no-memory-safety-checks", "--no-undefined-function-checks"]),
 }
 ENV_BASE = dict(os.environ, CARGO_NET_OFFLINE="true", CARGO_TERM_COLOR="never")
 
